@@ -66,7 +66,7 @@ partial def walk (f : File) (cubic : Bool) (E : Env F64 (List F64)) (s : St (Lis
          if northClass E lat lon then (some (northMsg lat f.h), bits) else
          (match parseF r with
           | some v =>
-            let (s', out) := step E s (.height lat lon)
+            let (s', out) := apiStep f cubic s (.height lat lon)
             let m := out.getD .nan
             -- the location must stay inside the raster (theorem `concrete_loc_in_raster`; checked again on every query)
             let locOK := match E.loc lat lon with
@@ -104,12 +104,12 @@ partial def walk (f : File) (cubic : Bool) (E : Env F64 (List F64)) (s : St (Lis
             | _ => (some "CacheArea threw on valid limits", bits))
          else
            (match cacheWindow f cubic so we no ea with
-            | .clear => after (step E s .cacheClear).1
+            | .clear => after (apiStep f cubic s (.cacheArea so we no ea)).1
             | .invalid => (some "CacheArea must reject limits that are not finite / latitudes outside [-90, 90]", bits)
             | .set xo yo xs ys =>
               -- window facts (theorem `cacheWindow_ok`), checked again on every call
               if !(0 ≤ xo && xo < f.w && 0 < xs && xs ≤ f.w && -1 ≤ yo && yo + ys ≤ f.h + 1 && 0 < ys) then (some s!"CacheArea window out of range: xoff={xo} xsize={xs} yoff={yo} ysize={ys}", bits)
-              else after (step E s (.cacheSet xo yo xs ys)).1)
+              else after (apiStep f cubic s (.cacheArea so we no ea)).1)
        | _, _, _, _, _ => (some "parse A", bits))
     | ["L"] =>
       (match r.splitOn ":" with
@@ -120,15 +120,12 @@ partial def walk (f : File) (cubic : Bool) (E : Env F64 (List F64)) (s : St (Lis
            | none => walk f cubic E s' mag bits ops rs
          if s.threadsafe then (if status == "!E" then after s else (some "CacheAll on a thread-safe Geoid must throw", bits))
          else if status != "-" then (some s!"CacheAll threw {status}", bits)
-         else
-           (match cacheWindow f cubic (F64.ofInt (-90)) 0 (F64.ofInt 90) (F64.ofInt 360) with
-            | .set xo yo xs ys => after (step E s (.cacheSet xo yo xs ys)).1
-            | _ => (some "CacheAll window", bits))
+         else after (apiStep f cubic s .cacheAll).1
        | _ => (some "parse L", bits))
     | ["X"] =>
       (match r.splitOn ":" with
        | _ :: ext =>
-         let s' := (step E s .cacheClear).1
+         let s' := (apiStep f cubic s .cacheClear).1
          (match checkExtent f cubic s' ext with
           | some e => (some e, bits)
           | none => walk f cubic E s' mag bits ops rs)
@@ -226,12 +223,7 @@ def handle (op : String) (args res : List String) : Option Verdict :=
        | some w, some h, some offset, some scale, some cubic, some threadsafe, some kind, some seed =>
          let f := mkFile w h offset scale kind seed.toUInt64
          let E := concrete f cubic
-         let s0 := initSt f
-         let s0 := if threadsafe then
-             (match cacheWindow f cubic (F64.ofInt (-90)) 0 (F64.ofInt 90) (F64.ofInt 360) with
-              | .set xo yo xs ys => { (step E s0 (.cacheSet xo yo xs ys)).1 with threadsafe := true }
-              | _ => s0)
-           else s0
+         let s0 := if threadsafe then threadsafeSt f cubic else initSt f
          let mag := F64.abs offset + scale * F64.ofInt 65535
          (match walk f cubic E s0 mag (0, 0) ops res with
           | (none, _) => .ok
